@@ -8,8 +8,8 @@
 (*                                                                         *)
 (*   Register(r, f, c)  a hook function is registered through registrar r  *)
 (*        r = "global"        schemathesis.hook                            *)
-(*            "schema"        schema.hook                                  *)
-(*            "schema_hooks"  schema.hooks.register                        *)
+(*            "schema"        schema.hook            (schema A)            *)
+(*            "schema_hooks"  schema.hooks.register  (schema A)            *)
 (*            "test"          HookDispatcher.add_dispatcher(test).register *)
 (*        f = "bare"        @reg                     def <hook name>(...)  *)
 (*            "named"       @reg("<hook name>")      def f(...)            *)
@@ -20,75 +20,109 @@
 (*        c = the chain of apply_to(...) / skip_for(...) calls written in  *)
 (*            THAT registration ("-" = none)                               *)
 (*   Unregister(s, h)   dispatcher-of-scope-s.unregister(function of h)    *)
+(*   Generate(w)        a case is generated for every operation of both    *)
+(*                      schemas, on the SAME schema / operation objects as *)
+(*                      every other generation of the history;             *)
+(*                      w = "with_test": as_strategy(hooks=<test           *)
+(*                      dispatcher>) for schema A, "without_test": no test *)
+(*                      dispatcher.  Every history ends with an implicit   *)
+(*                      Generate("with_test").                             *)
 (*                                                                         *)
-(* The oracle (Applied) is written from the property text: a hook is       *)
-(* applied to exactly the operations selected by the filter given in its   *)
-(* own registration, as long as it is registered; nothing else matters.    *)
-(* The hook kind of the k-th registration is plan[k]; the plan is chosen   *)
-(* from a catalogue so that all of map / filter / flatmap / before_generate*)
-(* on query, body, case (and headers, cookies, path_parameters) occur.     *)
+(* The oracle (AppliedAt) is written from the property text: at EVERY      *)
+(* generation a hook is applied to exactly the operations selected by the  *)
+(* filter given in its own registration, provided it is registered at that *)
+(* moment and its scope covers the generation (global: every schema;       *)
+(* schema: its schema; test: generations made for that test).  Nothing     *)
+(* else matters - not other registrations, not earlier generations, not    *)
+(* the order in which the two schemas are used.                            *)
+(* The hook kind of the k-th registration is plan.names[k]; plan.order is  *)
+(* the order in which the two schemas are used at every generation ("A":   *)
+(* only schema A is used in the process).                                  *)
 (***************************************************************************)
 EXTENDS HooksCatalogue, TLC, Json
 
 CONSTANTS MaxReg,      \* maximal number of registrations in a history
           MaxUnreg,    \* maximal number of unregistrations
-          MaxLen       \* maximal number of events
+          MaxGen,      \* maximal number of intermediate generations
+          MaxLen,      \* maximal number of events
+          Narrow       \* TRUE: forms bare / filt_bare / apply and chains C2 (C1, C2 when MaxLen > 3) only (histories with intermediate generations)
 (* Rich (declared in HooksCatalogue) = TRUE: thorough catalogue - 4th registrar, 4th chain, other plans, foreign-scope unregister *)
 
 ---------------------------------------------------------------------------
 Scopes == {"global", "schema", "test"}
 Registrars == IF Rich THEN {"global", "schema", "schema_hooks", "test"} ELSE {"global", "schema", "test"}
 ScopeOf(r) == IF r = "schema_hooks" THEN "schema" ELSE r
-FilteredForms == {"filt_bare", "filt_named", "named_filt"}
-PlainForms == {"bare", "named"}
+FilteredForms == IF Narrow THEN {"filt_bare"} ELSE {"filt_bare", "filt_named", "named_filt"}
+PlainForms == IF Narrow THEN {"bare"} ELSE {"bare", "named"}
+UsedChains == IF Narrow THEN (IF MaxLen > 3 THEN {"C1", "C2"} ELSE {"C2"}) ELSE ChainIds
 
-(* hook-kind plans: plan[k] is the hook name of the k-th registration *)
-PlansPairs == { <<"map_query", "map_query">>,
-                <<"filter_query", "flatmap_body">>,
-                <<"before_generate_body", "map_case">>,
-                <<"flatmap_case", "before_generate_query">> }
-PlansTriples == { <<"map_query", "map_query", "filter_query">>,
-                  <<"before_generate_body", "flatmap_case", "map_case">>,
-                  <<"filter_case", "before_generate_case", "flatmap_query">> }
-PlansRich == { <<"map_headers", "filter_cookies">>,
-               <<"before_generate_path_parameters", "flatmap_headers">>,
-               <<"map_body", "before_generate_query">>,
-               <<"flatmap_body", "filter_body">> }
-Plans == IF Rich THEN PlansRich ELSE IF MaxReg <= 2 THEN PlansPairs ELSE PlansTriples
+(* plans: hook name of the k-th registration, and the order in which the schemas are used *)
+Plan(names, order) == [names |-> names, order |-> order]
+PlansPairs == { Plan(<<"map_query", "filter_query">>, "AB"),
+                Plan(<<"flatmap_body", "map_case">>, "BA"),
+                Plan(<<"before_generate_body", "map_query">>, "A") }
+PlansTriples == { Plan(<<"map_query", "map_query", "filter_query">>, "BA"),
+                  Plan(<<"before_generate_body", "flatmap_case", "map_case">>, "A"),
+                  Plan(<<"filter_case", "before_generate_case", "flatmap_query">>, "AB") }
+PlansRich == { Plan(<<"map_headers", "filter_cookies">>, "AB"),
+               Plan(<<"before_generate_path_parameters", "flatmap_headers">>, "BA"),
+               Plan(<<"map_body", "before_generate_query">>, "A"),
+               Plan(<<"flatmap_case", "filter_body">>, "BA") }
+PlansGen == { Plan(<<"map_query", "filter_query">>, "AB"),
+              Plan(<<"before_generate_query", "flatmap_headers">>, "BA") }
+              \cup (IF MaxLen > 3 THEN { Plan(<<"map_body", "map_case">>, "AB") } ELSE {})
+Plans == IF MaxGen > 0 THEN PlansGen ELSE IF Rich THEN PlansRich ELSE IF MaxReg <= 2 THEN PlansPairs ELSE PlansTriples
 
 ---------------------------------------------------------------------------
 (* the oracle, as a function of the history alone *)
 RegEvent(r, f, c, n) == [ev |-> "reg", r |-> r, f |-> f, c |-> c, n |-> n, t |-> 0]
 UnregEvent(s, h)     == [ev |-> "unreg", r |-> s, f |-> "-", c |-> "-", n |-> "-", t |-> h]
+GenEvent(w)          == [ev |-> "gen", r |-> "-", f |-> w, c |-> "-", n |-> "-", t |-> 0]
 RegPositions(hs) == {k \in 1..Len(hs) : hs[k].ev = "reg"}
 (* hook ids are the ordinal numbers of the registrations *)
 PosOf(hs, h) == CHOOSE k \in RegPositions(hs) : Cardinality({j \in RegPositions(hs) : j <= k}) = h
 NRegs(hs) == Cardinality(RegPositions(hs))
-(* unregister removes exactly the given hook, and only from the dispatcher it is called on *)
-Live(hs, h) == LET k == PosOf(hs, h) IN
-                 ~\E j \in (k + 1)..Len(hs) : hs[j].ev = "unreg" /\ hs[j].t = h /\ hs[j].r = ScopeOf(hs[k].r)
+NRegsUpTo(hs, k) == Cardinality({j \in RegPositions(hs) : j <= k})
+(* unregister removes exactly the given hook, and only from the dispatcher it is called on; LiveAt: after the first k events *)
+LiveAt(hs, k, h) == LET p == PosOf(hs, h) IN
+                      /\ p <= k
+                      /\ ~\E j \in (p + 1)..k : hs[j].ev = "unreg" /\ hs[j].t = h /\ hs[j].r = ScopeOf(hs[p].r)
 (* SelTable[c][o]: is operation o selected by the filter written as chain c (a constant, evaluated once by TLC) *)
 SelTable == [c \in ChainIds \cup {"-"} |-> [o \in 1..NOps |-> Selected(Ops[o], FilterSetOf(c))]]
-Applied(hs, h, o) == Live(hs, h) /\ SelTable[hs[PosOf(hs, h)].c][o]
+(* does the scope of a hook cover a generation for operation o made with / without the test dispatcher *)
+Covers(scope, o, w) == \/ scope = "global"
+                       \/ Ops[o].schema = "A" /\ (scope = "schema" \/ (scope = "test" /\ w = "with_test"))
+(* plan.order: "AB" / "BA" - both schemas are used at every generation, in that order; "A" - schema B is never used in the     *)
+(* process, so nothing is generated for (or applied to) its operations                                                         *)
+Used(ord, o) == ord # "A" \/ Ops[o].schema = "A"
+(* applied at a generation made after the first k events *)
+AppliedAt(hs, k, w, h, o) == /\ LiveAt(hs, k, h) /\ SelTable[hs[PosOf(hs, h)].c][o]
+                             /\ Covers(ScopeOf(hs[PosOf(hs, h)].r), o, w)
+(* the generations of a history: every Generate event and the implicit final one; <<number of events before it, mode>> *)
+GenPoints(hs) == {<<k - 1, hs[k].f>> : k \in {j \in 1..Len(hs) : hs[j].ev = "gen"}} \cup {<<Len(hs), "with_test">>}
+Applied(hs, h, o) == AppliedAt(hs, Len(hs), "with_test", h, o)
+MatrixAt(hs, k, w) == [h \in 1..NRegsUpTo(hs, k) |-> [o \in 1..NOps |-> IF AppliedAt(hs, k, w, h, o) THEN 1 ELSE 0]]
+MatrixUsed(hs, k, w, ord) == [h \in 1..NRegsUpTo(hs, k) |-> [o \in 1..NOps |-> IF Used(ord, o) /\ AppliedAt(hs, k, w, h, o) THEN 1 ELSE 0]]
 
 ---------------------------------------------------------------------------
 VARIABLES hist,       \* sequence of events
-          plan,       \* hook-kind plan of this history
+          plan,       \* hook-kind plan and schema order of this history
           registry,   \* scope -> sequence of hook ids registered there, in order
           filterOf    \* hook id -> the filter given at ITS registration (as the chain id; FilterSetOf denotes the filter set)
 vars == <<hist, plan, registry, filterOf>>
 
 nreg == Len(filterOf)
 nunreg == Cardinality({k \in 1..Len(hist) : hist[k].ev = "unreg"})
+ngen == Cardinality({k \in 1..Len(hist) : hist[k].ev = "gen"})
 
 Init == /\ hist = << >> /\ plan \in Plans
         /\ registry = [s \in Scopes |-> << >>] /\ filterOf = << >>
 
 Register(r, f, c) ==
-  /\ nreg < MaxReg /\ nreg < Len(plan) /\ Len(hist) < MaxLen
+  /\ nreg < MaxReg /\ nreg < Len(plan.names) /\ Len(hist) < MaxLen
   /\ (f \in PlainForms \/ f = "apply") <=> c = "-"
   /\ f = "apply" => r = "test"
-  /\ hist' = Append(hist, RegEvent(r, f, c, plan[nreg + 1]))
+  /\ hist' = Append(hist, RegEvent(r, f, c, plan.names[nreg + 1]))
   /\ registry' = [registry EXCEPT ![ScopeOf(r)] = Append(@, nreg + 1)]
   /\ filterOf' = Append(filterOf, c)
   /\ UNCHANGED plan
@@ -103,13 +137,21 @@ Unregister(s, h) ==
   /\ registry' = [registry EXCEPT ![s] = SelectSeq(@, LAMBDA x : x # h)]
   /\ UNCHANGED <<plan, filterOf>>
 
-Next == \/ \E r \in Registrars, f \in PlainForms \cup FilteredForms \cup {"apply"}, c \in ChainIds \cup {"-"} : Register(r, f, c)
+(* generating data never changes what is registered *)
+Generate(w) ==
+  /\ ngen < MaxGen /\ Len(hist) < MaxLen
+  /\ hist' = Append(hist, GenEvent(w))
+  /\ UNCHANGED <<plan, registry, filterOf>>
+
+Next == \/ \E r \in Registrars, f \in PlainForms \cup FilteredForms \cup {"apply"}, c \in UsedChains \cup {"-"} : Register(r, f, c)
         \/ \E s \in Scopes, h \in 1..MaxReg : Unregister(s, h)
+        \/ \E w \in {"with_test", "without_test"} : Generate(w)
 Spec == Init /\ [][Next]_vars
 
 ---------------------------------------------------------------------------
 (* design invariants, checked on every enumerated history *)
-StateApplied(h, o) == (\E s \in Scopes : InRegistry(s, h)) /\ SelTable[filterOf[h]][o]
+StateApplied(h, o) == /\ \E s \in Scopes : InRegistry(s, h) /\ Covers(s, o, "with_test")
+                      /\ SelTable[filterOf[h]][o]
 TypeOK == /\ nreg <= MaxReg /\ Len(hist) <= MaxLen /\ NRegs(hist) = nreg
           /\ \A s \in Scopes : \A i \in 1..Len(registry[s]) : registry[s][i] \in 1..nreg
 (* every hook lives in at most one registry, the one of the scope it was registered on *)
@@ -117,26 +159,34 @@ ScopePartition == \A h \in 1..nreg : \A s \in Scopes :
                      InRegistry(s, h) => s = ScopeOf(hist[PosOf(hist, h)].r)
 (* the state kept by the actions and the history-only oracle agree *)
 OracleAgrees == \A h \in 1..nreg : \A o \in 1..NOps : StateApplied(h, o) = Applied(hist, h, o)
-(* an unfiltered hook applies everywhere while registered *)
-UnfilteredEverywhere == \A h \in 1..nreg : (hist[PosOf(hist, h)].c = "-" /\ Live(hist, h)) =>
-                           \A o \in 1..NOps : Applied(hist, h, o)
-(* independence: what a registered hook applies to is what it would apply to were it the only registration, whatever its form *)
-Independent == \A h \in 1..nreg : \A o \in 1..NOps :
-                 Applied(hist, h, o) =
-                   (Live(hist, h) /\ Applied(<< RegEvent("schema", "filt_bare", hist[PosOf(hist, h)].c, "map_query") >>, 1, o))
+(* an unfiltered hook applies to everything its scope covers while registered *)
+UnfilteredEverywhere == \A h \in 1..nreg : (hist[PosOf(hist, h)].c = "-" /\ LiveAt(hist, Len(hist), h)) =>
+                           \A o \in 1..NOps : Covers(ScopeOf(hist[PosOf(hist, h)].r), o, "with_test") => Applied(hist, h, o)
+(* independence: what a hook applies to at a generation is what it would apply to were its registration the only event before it *)
+Independent == \A g \in GenPoints(hist) : \A h \in 1..NRegsUpTo(hist, g[1]) : \A o \in 1..NOps :
+                 AppliedAt(hist, g[1], g[2], h, o) =
+                   (LiveAt(hist, g[1], h) /\ AppliedAt(<< hist[PosOf(hist, h)] >>, 1, g[2], 1, o))
+(* generating never changes a later expectation: dropping the Generate events gives the same final matrix *)
+GenerationsAreInert == LET noGen == SelectSeq(hist, LAMBDA e : e.ev # "gen")
+                       IN MatrixAt(noGen, Len(noGen), "with_test") = MatrixAt(hist, Len(hist), "with_test")
+(* same label, different schema: the catalogue contains chains that tell the twins apart *)
+Twins(o, q) == q # o /\ Ops[q].method = Ops[o].method /\ Ops[q].path = Ops[o].path
+ASSUME \E c \in UsedChains : \E o, q \in 1..NOps : Twins(o, q) /\ SelTable[c][o] # SelTable[c][q]
 (* every chain of the catalogue is decided by the property text (no "U") and discriminates *)
 ChainsDecided == \A c \in ChainIds : \A o \in 1..NOps : SelectedVerdict(Ops[o], FilterSetOf(c)) # "U"
 ChainsDiscriminate == \A c \in ChainIds : /\ \E o \in 1..NOps : Selected(Ops[o], FilterSetOf(c))
                                           /\ \E o \in 1..NOps : ~Selected(Ops[o], FilterSetOf(c))
 ASSUME ChainsDecided /\ ChainsDiscriminate
 
-(* export: the catalogue once, then every non-empty history with the expected applied-matrix *)
+(* export: the catalogue once, then every non-empty history with the expected applied-matrix of each of its generations *)
 Bit(b) == IF b THEN 1 ELSE 0
+GenSeq(hs) == LET inner == SelectSeq([k \in 1..Len(hs) |-> <<k - 1, hs[k].f, hs[k].ev>>], LAMBDA x : x[3] = "gen")
+              IN [j \in 1..(Len(inner) + 1) |-> IF j <= Len(inner) THEN <<inner[j][1], inner[j][2]>> ELSE <<Len(hs), "with_test">>]
 Export ==
   IF hist = << >>
   THEN IF plan = CHOOSE p \in Plans : TRUE
        THEN PrintT(<<"CATALOGUE", ToJson([ops |-> Ops, chains |-> [c \in ChainIds |-> ChainDef[c]]])>>)
        ELSE TRUE
-  ELSE PrintT(<<"CASE", ToJson([events |-> hist,
-                                 expect |-> [h \in 1..nreg |-> [o \in 1..NOps |-> Bit(Applied(hist, h, o))]]])>>)
+  ELSE PrintT(<<"CASE", ToJson([events |-> hist, order |-> plan.order,
+                                 expect |-> [j \in 1..Len(GenSeq(hist)) |-> MatrixUsed(hist, GenSeq(hist)[j][1], GenSeq(hist)[j][2], plan.order)]])>>)
 =============================================================================
